@@ -128,6 +128,11 @@ func genBatch(r *rand.Rand, mode string) (BatchCfg, *BatchScript) {
 		c.N = 1 + r.Intn(2)
 		c.Sched, c.Via, c.StopMode = "wave", "builder", false
 		pFail = 0.5
+	case "onestop": // one worker (or none), stop mode, exactly one item fails for good: nothing positioned behind it may run
+		c.C = r.Intn(2)
+		c.Items = 4 + r.Intn(13)
+		c.N, c.Fb, c.StopMode, c.Sched, c.Via, c.Shape = 1, false, true, []string{"random", "free"}[r.Intn(2)], "builder", "results"
+		pFail = 0
 	case "bigstop": // stop mode, a long queue behind the failing item, an in-flight item succeeding right after the failure
 		c.C = 2 + r.Intn(3)
 		c.Items = 1500
@@ -191,6 +196,9 @@ func genBatch(r *rand.Rand, mode string) (BatchCfg, *BatchScript) {
 	}
 	if mode == "bigstop" {
 		s.Items[1].Execs[0].Out = "err"
+	}
+	if mode == "onestop" {
+		s.Items[1+r.Intn(c.Items-1)].Execs[0].Out = "err"
 	}
 	if (mode == "continue" || mode == "stop" || mode == "rebudget") && c.Shape == "results" && c.WarmN == 0 && r.Intn(3) == 0 {
 		c.PrepN = true
